@@ -6,7 +6,7 @@ _CRASH = {"crash_is_violation": True}
 PROP = {
     "level": "exploration",
     "rule": ("rapid-generated cases = queue configuration (fixed-window quota max 1-3 per 1-3 s, queue_size 1-4, first instant at offset 0/300/950 ms inside its second, "
-             "priority groups high=1 mid=2 low=3 by header x-prio, header absent or unknown group = no group; a per-case palette of priorities so that cases with many equal and "
+             "priority groups High=1 mid=2 low=3 (one name with an upper-case letter) by header x-prio, header absent or unknown group = no group; a per-case palette of priorities so that cases with many equal and "
              "with many different priorities both occur) + a schedule of 1-8 rounds, a round = burst of 0-4 arrivals {priority, optionally held between slot check and "
              "registration (at one of two yield points: right after the slot check, or after the watch-list registration and before the enqueue), optionally with its clean-up goroutine held before the removal from the watch list}, then tick x N (N in 1,2,3,9 or one whole window -1/0/+1: the "
              "100 ms processing loop is fired on a harness-owned virtual clock and awaited until it re-armed), interspersed release(one goroutine held after its slot check) / "
